@@ -313,6 +313,11 @@ type deploy struct {
 	seen     [2]map[string][]string // strict, non-strict: per probe name the answers
 	sawHuman [2]map[string][]string
 	viols    []pviol
+	// pathlink.go: the configured path leads through symbolic links
+	source  *cert.PathSource      // the source to run behind (nil: CertPath = certDir)
+	early   bool                  // the first step is applied before the sources are created
+	worldFn func(d *deploy) world // what the file tree looks like now (nil: describe certDir)
+	worlds  []world
 }
 
 type depStep struct {
@@ -370,42 +375,47 @@ func (d *deploy) overwrite(file string, pf *pfile) {
 }
 
 // what Lstat and a read of every entry below the certificate path yield now
-func (d *deploy) describe() []dentryDesc {
+func (d *deploy) describe() []dentryDesc { return d.describeDir(d.certDir) }
+
+// what Lstat and a read of one path yield now
+func (d *deploy) describeEntry(path, rel string) dentryDesc {
+	info, err := os.Lstat(path)
+	d.must(err)
+	mt, ok := d.mtimes[info.ModTime().UnixNano()]
+	if !ok {
+		mt = len(d.mtimes) + 1
+		d.mtimes[info.ModTime().UnixNano()] = mt
+	}
+	e := dentryDesc{path: filepath.ToSlash(rel), kind: "KRegular", size: int(info.Size()), mtime: mt}
+	switch {
+	case info.IsDir():
+		e.kind = "KDir"
+	case info.Mode()&os.ModeSymlink != 0:
+		e.kind = "KSymlink"
+	}
+	if !info.IsDir() {
+		if data, err := os.ReadFile(path); err == nil {
+			pf := d.known[string(data)]
+			if pf == nil {
+				panic("the harness does not know the content of " + path)
+			}
+			e.pf = pf
+		}
+	}
+	return e
+}
+
+func (d *deploy) describeDir(dir string) []dentryDesc {
 	var out []dentryDesc
-	d.must(filepath.WalkDir(d.certDir, func(path string, _ os.DirEntry, err error) error {
+	d.must(filepath.WalkDir(dir, func(path string, _ os.DirEntry, err error) error {
 		if err != nil {
 			return err
 		}
-		if path == d.certDir {
+		if path == dir {
 			return nil
 		}
-		rel, _ := filepath.Rel(d.certDir, path)
-		info, err := os.Lstat(path)
-		if err != nil {
-			return err
-		}
-		mt, ok := d.mtimes[info.ModTime().UnixNano()]
-		if !ok {
-			mt = len(d.mtimes) + 1
-			d.mtimes[info.ModTime().UnixNano()] = mt
-		}
-		e := dentryDesc{path: filepath.ToSlash(rel), kind: "KRegular", size: int(info.Size()), mtime: mt}
-		switch {
-		case info.IsDir():
-			e.kind = "KDir"
-		case info.Mode()&os.ModeSymlink != 0:
-			e.kind = "KSymlink"
-		}
-		if !info.IsDir() {
-			if data, err := os.ReadFile(path); err == nil {
-				pf := d.known[string(data)]
-				if pf == nil {
-					panic("the harness does not know the content of " + path)
-				}
-				e.pf = pf
-			}
-		}
-		out = append(out, e)
+		rel, _ := filepath.Rel(dir, path)
+		out = append(out, d.describeEntry(path, rel))
 		return nil
 	}))
 	sort.Slice(out, func(i, j int) bool { return out[i].path < out[j].path })
@@ -428,15 +438,29 @@ func coqDirState(st []dentryDesc) string {
 func (d *deploy) run() {
 	defer os.RemoveAll(d.root)
 	var cfgs [2]*tls.Config
+	if d.early {
+		// the file tree is there, links included, when the sources are created
+		d.steps[0].apply(d)
+	}
 	for i := range cfgs {
-		cfg, err := cert.TLSConfig(cert.PathSource{CertPath: d.certDir, ClientCAPath: filepath.Join(d.root, "no-clientca"), Refresh: time.Second}, i == 0, 0, 0, nil)
+		ps := cert.PathSource{CertPath: d.certDir, ClientCAPath: filepath.Join(d.root, "no-clientca"), Refresh: time.Second}
+		if d.source != nil {
+			ps = *d.source
+		}
+		cfg, err := cert.TLSConfig(ps, i == 0, 0, 0, nil)
 		d.must(err)
 		cfgs[i] = cfg
 		d.seen[i], d.sawHuman[i] = map[string][]string{}, map[string][]string{}
 	}
-	for _, st := range d.steps {
-		st.apply(d)
-		d.states = append(d.states, d.describe())
+	for k, st := range d.steps {
+		if !(d.early && k == 0) {
+			st.apply(d)
+		}
+		if d.worldFn != nil {
+			d.worlds = append(d.worlds, d.worldFn(d))
+		} else {
+			d.states = append(d.states, d.describe())
+		}
 		d.names = append(d.names, st.name)
 		time.Sleep(2300 * time.Millisecond)
 		for i, cfg := range cfgs {
@@ -460,6 +484,9 @@ func (d *deploy) run() {
 }
 
 func (d *deploy) cases() (out []pcase) {
+	if d.worldFn != nil {
+		return d.pathCases()
+	}
 	for i := range d.seen {
 		for _, sn := range d.probes {
 			i, sn := i, sn
